@@ -12,7 +12,7 @@ from harness import core, par, render, tlaval, tlc
 from harness.drivers.c01 import done_states
 
 
-def scene_xml(sc):
+def scene_xml(sc, template=False):
   body, tup, names = [], [], []
   gi = 0
   for i, l in enumerate(sc['links'], 1):
@@ -23,7 +23,8 @@ def scene_xml(sc):
       nm = f'G{i}_{k}'
       size = f'{render.fl(g["r"])!r}' if g['type'] == 'S' else f'{render.fl(g["r"])!r} {render.fl(g["hl"])!r}'
       body.append(f'      <geom name="{nm}" type="{"sphere" if g["type"] == "S" else "capsule"}" size="{size}" '
-                  f'pos="{render.vec(g["lpos"])}" quat="{render.vec(g["lquat"])}" mass="1"/>')
+                  + ('pos="0 0 0" quat="1 0 0 0"' if template else f'pos="{render.vec(g["lpos"])}" quat="{render.vec(g["lquat"])}"') +
+                  ' mass="1"/>')
       tup.append(f'      <element objtype="geom" objname="{nm}" prm="{render.fl(g["elast"])!r}"/>')
     body.append('    </body>')
   tup.append(f'      <element objtype="geom" objname="ground" prm="{render.fl(sc["pelast"])!r}"/>')
@@ -39,9 +40,16 @@ def eval_case(case):
   from brax import base, contact
   from brax.io import mjcf
   sc = case['scene']
-  xml = scene_xml(sc)
+  # every other scene is loaded from a template document and its geom offsets are then set on the System itself
+  # (sys.replace, as domain randomisation does): contact.get must use the System's fields
+  template = case.get('mode') == 'replace'
+  xml = scene_xml(sc, template=template)
   try:
     sys = mjcf.loads(xml)
+    if template:
+      gp = [render.fvec(sc['plane']['pos'])] + [render.fvec(g['lpos']) for l in sc['links'] for g in l['geoms']]
+      gq = [render.fvec(sc['plane']['quat'])] + [render.fvec(g['lquat']) for l in sc['links'] for g in l['geoms']]
+      sys = sys.replace(geom_pos=jp.asarray(gp), geom_quat=jp.asarray(gq))
   except Exception as e:
     return {'xml': xml, 'rows': [], 'brax_error': f'{type(e).__name__}: {str(e)[:300]}'}
   x = base.Transform(pos=jp.asarray([render.fvec(l['pos']) for l in sc['links']]),
@@ -77,7 +85,8 @@ def run(ctx):
   res = tlc.run('Contact', cfg, name='c10', dump=dump, seed=ctx.seed + 16, expect_ok=True, coverage=True)
   tlc.require_coverage(res, ['Compute'], 'c10')
   ctx.add_tlc(res, 'Contact.tla')
-  cases = [{'scene': s['scene'], 'out': s['out']} for s in done_states(dump + '.dump')]
+  cases = [{'scene': s['scene'], 'out': s['out'], 'mode': 'replace' if i % 2 else 'xml'}
+           for i, s in enumerate(done_states(dump + '.dump'))]
   branches = {}
   nrows = 0
   pen = 0
